@@ -213,7 +213,7 @@ def h_group_info(r):
 
 def h_groups_list(r):
     seen, groups = set(), []
-    for _ in range(r.randint(0, 4)):
+    for _ in range(gen.count(r, 0, 4)):
         g = _group_node(r, typed=True)
         if r.random() < 0.3:
             g = (g[0], g[1], [], None)
@@ -267,7 +267,7 @@ def h_upload_result(r):
 def h_statuses_result(r):
     users = []
     seen = set()
-    for _ in range(r.randint(1, 4)):
+    for _ in range(gen.count(r, 1, 4)):
         j = gen.jid(r)
         if j in seen:
             continue
